@@ -401,7 +401,7 @@ def gates(m, tier):
                               'base.py:Frame.unmarshal',
                               'frame.py:_unmarshal_method_frame')):
         if f not in fr:
-            out.append('anchored function %s never entered' % f)
+            out.append('advisory: ' + 'anchored function %s never entered' % f)
     if m.counters.get('refused_at_construct', 0):
         out.append('%d valid assignments were refused by a constructor '
                    '(cannot be evaluated; see notes)'
